@@ -54,8 +54,13 @@ class LiveManager:
         except BaseException as e:   # noqa
             self.exc = e
 
-    def request(self, line, timeout=60):
-        """One connection: send a line, read to EOF. Returns the conn event."""
+    DELIVERIES = ("whole", "pieces", "eof", "open", "two")
+
+    def request(self, line, timeout=60, delivery="whole"):
+        """One connection: send a line, read to EOF. Returns the conn event. `delivery`: the line and its
+        terminator in one write then the write side closed (whole); in small pieces (pieces); without a
+        terminator, ended by closing the write side (eof); terminated, write side left open (open); followed by a
+        second line (two)."""
         install(self.world)
         before = self.shutdown_calls
         # keep the well-behaved device in a sane state between independent requests
@@ -67,8 +72,24 @@ class LiveManager:
         try:
             s.settimeout(timeout)
             try:
-                s.sendall(line + b"\n")
-                s.shutdown(socket.SHUT_WR)
+                if delivery == "pieces":
+                    data_out = line + b"\n"
+                    step = max(1, len(data_out) // 7)
+                    for i in range(0, len(data_out), step):
+                        s.sendall(data_out[i:i + step])
+                        threading.Event().wait(0.002)
+                    s.shutdown(socket.SHUT_WR)
+                elif delivery == "eof" and b"\n" not in line and line.strip() == line:
+                    s.sendall(line)
+                    s.shutdown(socket.SHUT_WR)
+                elif delivery == "open":
+                    s.sendall(line + b"\n")
+                elif delivery == "two":
+                    s.sendall(line + b"\n" + b'{"command":"version"}\n')
+                    s.shutdown(socket.SHUT_WR)
+                else:
+                    s.sendall(line + b"\n")
+                    s.shutdown(socket.SHUT_WR)
             except OSError:
                 pass        # a manager that is gone resets the connection: an observation (no reply), not a failure
             while True:
